@@ -399,3 +399,25 @@ PROPS["C18"] = {
     "quick": [rapid("manifest", "^TestPropManifest$", 6000, shards=4), rapid("inverse", "^TestPropInverse$", 500, shards=4)],
     "thorough": [rapid("manifest", "^TestPropManifest$", 60000, shards=8), rapid("inverse", "^TestPropInverse$", 4000, shards=6), fuzz("FuzzOpenDirManifest", "120s")],
 }
+
+# Additions to the rule texts made while the generators grew (kept apart from the long literals above).
+RULE_ADDENDA = {
+    "C03": ("Rule files also come without final line terminator, with a 70000-byte comment line (unreadable as a whole: the defaults apply; "
+            "the bundle leg refuses loudly and is not judged) and after a warm-up Pack of the same directory by the same Packer under the rule '*'; "
+            "names include line breaks (the bundle leg refuses those loudly)."),
+    "C06": ("Derived values also come from MakeRemoteSource with source types in every letter case and IPv6 hosts; segments include line "
+            "breaks and (through a placeholder) bytes that are not UTF-8."),
+    "C09": ("The directories used held other bundles before and were opened as such (nothing remembered about a path may come back); the "
+            "archive is also extracted into a relative directory name and into '.', with the working directory moving on; a pass under umask 027."),
+    "C10": ("The target directory is also named through a symlinked parent, or relative to a working directory that changes after NewBuilder "
+            "(a same-named decoy exists in the later one); rule lines include root-anchored ones and negation-then-exclusion orders; packages "
+            "may be byte-identical clones."),
+    "C12": ("Concurrentpoison sub-check: a failing Add call while further Add calls on the same builder wait for it (started 0-600 us later): "
+            "nothing may appear outside the target directory (working directory and TMPDIR lie in the observed arena) and Close must refuse."),
+    "C16": ("Concurrent members either make their own Packer per call, share one Packer value, or use the package-level Pack function with "
+            "their own dereference flag."),
+    "C07": ("The constructor route also sets URL.Opaque, URL.Fragment and query strings containing '#' on hand-built URL values."),
+    "C04": ("An unprivileged pass of the links sub-check, with scenario families that put the offending link into a directory recorded as read-only."),
+}
+for _k, _v in RULE_ADDENDA.items():
+    PROPS[_k]["rule"] += " " + _v
